@@ -1671,6 +1671,176 @@ theorem runObserve_refines (D : Dims) (hD : DPos D) (T : Tables α) (A : List Bo
 
 end Programs
 
+section GlobalStorage
+variable {α : Type} [RealOps α]
+
+/-! ## global storage: the same in both semantics -/
+
+theorem gRegRec_mode (D : Dims) (T : Tables α) (s : St α) (hw : WF D s) (G : GStore α)
+    (r : String × Int × Option String) :
+    gRegRec .ref D T s G r = gRegRec .impl D T (cSt s) G r := by
+  unfold gRegRec
+  cases hd : sget T.dbl r.1 with
+  | none => rfl
+  | some info =>
+    simp only []
+    split
+    · cases hrn : r.2.2 with
+      | none => rfl
+      | some rn =>
+        simp only [cSt_ints_get, cSt_dbls_get]
+        cases hreg : sget s.ints rn with
+        | none => rfl
+        | some reg =>
+          cases hloc : sget s.dbls r.1 with
+          | none => rfl
+          | some loc =>
+            simp only [Option.map_some]
+            have hlr := wfstore_sget hw.ints hreg
+            have hll := wfstore_sget hw.dbls hloc
+            congr 1
+            rw [List.mapIdx_eq_mapIdx_iff]
+            intro g _
+            have hact : (cSt s).act = s.act := rfl
+            rw [hact]
+            by_cases ha : isActive s.act g = true
+            · simp only [cellG, cellAt_compress_rank s.act reg g (by rw [hlr, hw.act]) ha,
+                cellAt_compress_rank s.act loc g (by rw [hll, hw.act]) ha]
+              rfl
+            · simp [ha]
+    · rfl
+
+theorem gStep_mode (D : Dims) (T : Tables α) (sec : Section) (b : Box) (s : St α) (hw : WF D s) (G : GStore α)
+    (k : Kw α) : gStep .ref D T sec b s G k = gStep .impl D T sec b (cSt s) G k := by
+  cases k with
+  | regScalar op recs =>
+    simp only [gStep]
+    congr 1
+    induction recs generalizing G with
+    | nil => rfl
+    | cons r rs ih => simp only [List.foldl_cons]; rw [gRegRec_mode D T s hw]; exact ih _
+  | operateR recs =>
+    simp only [gStep]
+    congr 1
+    induction recs generalizing G with
+    | nil => rfl
+    | cons r rs ih => simp only [List.foldl_cons]; rw [gRegRec_mode D T s hw]; exact ih _
+  | _ => rfl
+
+def cPairG (pg : (St α × Box) × GStore α) : (St α × Box) × GStore α := (cPair pg.1, pg.2)
+
+theorem kwStepG_refines (D : Dims) (hD : DPos D) (T : Tables α) (sec : Section) (pg : (St α × Box) × GStore α)
+    (hp : PairOK D pg.1) (k : Kw α) :
+    (kwStepG .ref D T sec pg k).map cPairG = kwStepG .impl D T sec (cPairG pg) k ∧
+    ∀ q, kwStepG .ref D T sec pg k = some q → PairOK D q.1 := by
+  obtain ⟨r1, r2⟩ := kwStep_refines D hD T sec pg.1 hp k
+  unfold kwStepG
+  simp only [cPairG]
+  rw [← r1]
+  cases hk : kwStep .ref D T sec pg.1 k with
+  | none => simp
+  | some q =>
+    have hq := r2 q hk
+    simp only [Option.map_some]
+    have hb : (cPair pg.1).2 = pg.1.2 := rfl
+    have hs : (cPair q).1 = cSt q.1 := rfl
+    rw [hb, hs, ← gStep_mode D T sec pg.1.2 q.1 hq.1 pg.2 k]
+    cases hg : gStep .ref D T sec pg.1.2 q.1 pg.2 k with
+    | none => simp
+    | some G' =>
+      simp only [Option.map_some]
+      exact ⟨rfl, fun q' hq' => by cases hq'; exact hq⟩
+
+theorem scanSectionG_refines (D : Dims) (hD : DPos D) (T : Tables α) (sec : Section) (sg : St α × GStore α)
+    (hw : WF D sg.1) (ks : List (Kw α)) :
+    (scanSectionG .ref D T sec sg ks).map (fun x => (cSt x.1, x.2)) = scanSectionG .impl D T sec (cSt sg.1, sg.2) ks ∧
+    ∀ q, scanSectionG .ref D T sec sg ks = some q → WF D q.1 := by
+  unfold scanSectionG
+  obtain ⟨h1, h2⟩ := foldRecs_refines (kwStepG .ref D T sec) (kwStepG .impl D T sec) cPairG (fun pg => PairOK D pg.1)
+    (fun pg k hp => kwStepG_refines D hD T sec pg hp k) ks ((sg.1, Box.global D), sg.2) ⟨hw, global_valid D hD⟩
+  change _ = foldRecs _ ((cSt sg.1, Box.global D), sg.2) ks at h1
+  rw [← h1]
+  cases hf : foldRecs (kwStepG .ref D T sec) ((sg.1, Box.global D), sg.2) ks with
+  | none => simp
+  | some r =>
+    have hwr := (h2 r hf).1
+    simp only [Option.map_some, cPairG, cPair]
+    by_cases he : sec = .edit
+    · simp only [he, if_true]
+      obtain ⟨m1, m2⟩ := foldl_applyMult_refines D T.dbl r.1.1 hwr
+      exact ⟨by simp only [applyMultipliers]; rw [m1], fun q hq => by cases hq; exact m2⟩
+    · simp only [he, if_false]
+      exact ⟨trivial, fun q hq => by cases hq; exact hwr⟩
+
+theorem runProgG_refines (D : Dims) (hD : DPos D) (T : Tables α) (s0 : St α) (hw : WF D s0) (P : Prog α) :
+    (runProgG .ref D T s0 P).map (fun x => (cSt x.1, x.2)) = runProgG .impl D T (cSt s0) P ∧
+    ∀ q, runProgG .ref D T s0 P = some q → WF D q.1 := by
+  unfold runProgG
+  obtain ⟨g1, g2⟩ := scanSectionG_refines D hD T .grid (s0, []) hw P.grid
+  rw [← g1]
+  cases h1 : scanSectionG .ref D T .grid (s0, []) P.grid with
+  | none => simp
+  | some s1 =>
+    have w1 := g2 s1 h1
+    simp only [Option.map_some]
+    obtain ⟨e1, e2⟩ := scanSectionG_refines D hD T .edit s1 w1 P.edit
+    rw [← e1]
+    cases h2 : scanSectionG .ref D T .edit s1 P.edit with
+    | none => simp
+    | some s2 =>
+      have w2 := e2 s2 h2
+      simp only [Option.map_some]
+      obtain ⟨a1, a2⟩ := resetActnum_refines D s2.1 w2
+      rw [← a1]
+      obtain ⟨r1, r2⟩ := scanSectionG_refines D hD T .regions (resetActnum .ref D s2.1, s2.2) a2 P.regions
+      rw [← r1]
+      cases h3 : scanSectionG .ref D T .regions (resetActnum .ref D s2.1, s2.2) P.regions with
+      | none => simp
+      | some s3 =>
+        have w3 := r2 s3 h3
+        simp only [Option.map_some]
+        obtain ⟨p1, p2⟩ := scanSectionG_refines D hD T .props s3 w3 P.props
+        rw [← p1]
+        cases h4 : scanSectionG .ref D T .props s3 P.props with
+        | none => simp
+        | some s4 =>
+          have w4 := p2 s4 h4
+          simp only [Option.map_some]
+          exact scanSectionG_refines D hD T .solution s4 w4 P.solution
+
+theorem observeG_refines (D : Dims) (T : Tables α) (sg : St α × GStore α) (hw : WF D sg.1) :
+    observeG .ref D T sg = observeG .impl D T (cSt sg.1, sg.2) := by
+  unfold observeG
+  have hact : (cSt sg.1).act = sg.1.act := rfl
+  simp only [hact]
+  congr 1
+  · apply List.map_congr_left
+    intro p _
+    simp only [observeDG, observeD_refines D T sg.1 hw]
+  · apply List.map_congr_left
+    intro p _
+    rw [observeI_refines D T sg.1 hw]
+
+/-- **What the driver runs: the observable result of every deck, including the global storage
+of `global` keywords, is the same under both semantics.** -/
+theorem runObserveG_refines (D : Dims) (hD : DPos D) (T : Tables α) (A : List Bool) (hA : A.length = D.size)
+    (P : Prog α) : runObserveG .ref D T A P = runObserveG .impl D T A P := by
+  unfold runObserveG
+  have hw : WF D (initSt A : St α) :=
+    ⟨hA, (fun p hp => by simp [initSt] at hp), (fun p hp => by simp [initSt] at hp)⟩
+  obtain ⟨h1, h2⟩ := runProgG_refines D hD T (initSt A) hw P
+  have hc : cSt (initSt A : St α) = initSt A := rfl
+  rw [hc] at h1
+  rw [← h1]
+  cases hr : runProgG .ref D T (initSt A) P with
+  | none => rfl
+  | some sg =>
+    simp only [Option.map_some]
+    rw [observeG_refines D T sg (h2 sg hr)]
+
+
+end GlobalStorage
+
 /-! ## independence of inactive cells (one operation) -/
 
 section Indep
